@@ -35,7 +35,7 @@ Spec == Init /\ [][Next]_vars
 
 ASSUME TLCSet(1, {}) /\ TLCSet(2, [i \in DOMAIN H |-> 0])
 Mark == /\ (l > TLCGet(2)[h]) => TLCSet(2, [TLCGet(2) EXCEPT ![h] = l])
-        /\ (l = Len(Evs) + 1 /\ H[h].specUnchanged) => TLCSet(1, TLCGet(1) \cup {h})
+        /\ (l = Len(Evs) + 1 /\ H[h].specUnchanged /\ H[h].nilSeen = 0) => TLCSet(1, TLCGet(1) \cup {h})
 Post ==
   LET rej == SetToSeq(DOMAIN H \ TLCGet(1))
       N(i, e) == Cardinality({j \in DOMAIN H[i].events : H[i].events[j].ev = e})
